@@ -1250,7 +1250,7 @@ pub fn gen_case(seed: u64, idx: u64) -> Option<(HistCase, Rng, GenOpsCfg)> {
     }
     gcfg.allow_pad = gcfg.allow_text || rng.chance(1, 8);
     if gcfg.allow_text || gcfg.allow_pad {
-        gcfg.nsym = 16;
+        gcfg.nsym = crate::tok::NSYM_TEXT;
     }
     let g = gram::generate(&mut rng, &gcfg);
     let npool = rng.range(2, 5) as usize;
